@@ -26,6 +26,9 @@ HARNESS = {
     '/repo/internal/db/zz_c07_index_test.go': f'{V}/harness/db/zz_c07_index_test.go',
     '/repo/internal/db/zz_c09_relation_test.go': f'{V}/harness/db/zz_c09_relation_test.go',
     '/repo/internal/db/zz_c14_restart_test.go': f'{V}/harness/db/zz_c14_restart_test.go',
+    '/repo/internal/db/zz_c13_partition_test.go': f'{V}/harness/db/zz_c13_partition_test.go',
+    '/repo/internal/db/zz_c19_active_test.go': f'{V}/harness/db/zz_c19_active_test.go',
+    '/repo/internal/db/zz_c11_update_test.go': f'{V}/harness/db/zz_c11_update_test.go',
 }
 
 def overlay():
@@ -281,6 +284,65 @@ if prop == 'C10':
         else:
             lines.append(f'VIOLATION property={prop} replay={rp} no-failing-input-found')
         violations.append(('acp scenarios', failed))
+
+if prop == 'C13':
+    summary['function'] = 'db.setSchemaIDs / getSchemaSets / generateSetID / substituteRelationFieldKinds through DB.AddSchema (go test -overlay on real databases)'
+    p, res = gotest('^TestGovcC13Partition$', {}, 600)
+    if res is None:
+        rp = f'{V}/replays/{prop}/bounded-harness.json'
+        os.makedirs(os.path.dirname(rp), exist_ok=True)
+        json.dump({'property': prop, 'obligation': 'bounded harness', 'reason': 'the schema identifier harness no longer builds or runs against the current tree', 'output': (p.stdout + p.stderr)[-4000:]}, open(rp, 'w'), indent=1)
+        print(f'VIOLATION property={prop} replay={rp} no-failing-input-found')
+        sys.exit(1)
+    kf = [k for k in json.load(open(f'{V}/known_findings.json')) if k['property'] == prop and k.get('kind') == 'bounded-case' and k.get('status') != 'fixed']
+    fresh = []
+    hit = {}
+    for r in res['results']:
+        if not r['differ']:
+            continue
+        k = next((k for k in kf if k['case'] == r['name'] and k['differ'] == r['differ']), None)
+        if k:
+            hit[k['id']] = hit.get(k['id'], 0) + 1
+        else:
+            fresh.append(r)
+    for k in kf:
+        lines.append(f"KNOWN-FINDING: property={prop} {k['what']} [{k['id']}; {'reproduced' if hit.get(k['id']) else 'not reproduced'} in this run]")
+    summary.update({'bound': 'seven families of type definitions (two relation circles joined by a one-directional relation, a three-cycle, a self reference, independent types), each added as one SDL and as a reordered SDL or split into several AddSchema calls: all version and collection identifiers must be equal', 'cases': res['cases'], 'distinct_nontrivial': res['cases'], 'exhaustive': False, 'violating_histories': sum(1 for r in res['results'] if r['differ']), 'attributed_to_known_findings': hit})
+    if fresh:
+        rp = f'{V}/replays/{prop}/bounded-history-1.json'
+        os.makedirs(os.path.dirname(rp), exist_ok=True)
+        json.dump({'property': prop, 'obligation': 'bounded stand-in: schema identifiers', 'problems': fresh, 'replay_cmd': "go test -overlay <harness overlay> -vet=off -run '^TestGovcC13Partition$' ./internal/db"}, open(rp, 'w'), indent=1)
+        lines.append(f'VIOLATION property={prop} replay={rp}')
+        violations.append(('schema identifiers', fresh))
+
+SCEN = {
+    'C19': ('^TestGovcC19', './internal/db', dict(HARNESS), 1,
+            '(*DB).setActiveSchemaVersion / patchSchema through the DB API (go test -overlay on a real database)',
+            'one scenario: add a schema, create a document, patch the schema (new default version), create a document, switch the active version back to the first one and forth again: exactly the requested version is active after each switch and both documents stay readable'),
+    'C11': ('^TestGovcC11', './internal/db', dict(HARNESS), 1,
+            'coreblock.AddDelta / determineBlockEncryption through Collection.Create / Update (go test -overlay on a real database)',
+            'one scenario: a document created with document-level encryption; an update of a field set at creation and the first write of another field; after each write every block of the shared blockstore is searched for the written secret; the writer reads the values back'),
+    'C08': ('^TestGovcC08', './tests/integration/query/simple/', {'/repo/tests/integration/query/simple/zz_c08_group_offset_test.go': f'{V}/harness/query/zz_c08_group_offset_test.go', '/repo/tests/integration/query/simple/zz_c08_aggregates_test.go': f'{V}/harness/query/zz_c08_aggregates_test.go'}, 6,
+            'planner limit/offset on group members and the aggregate nodes (count, sum, min, max, average) through the integration test driver (go test -overlay)',
+            'six fixed scenarios: offset without limit at top level and on group members; count/sum/min/max/average over integers and floats with a null and negative values, over all-negative values, and with order, limit, offset and filter arguments, each against the arithmetic over the listed values'),
+}
+if prop in SCEN:
+    import re
+    run, pkg, files, want, fn, bound = SCEN[prop]
+    summary['function'] = fn
+    p = gotest_pkg(run, pkg, files, 300)
+    out = p.stdout + p.stderr
+    passed = re.findall(r'--- PASS: (TestGovc\w+)', out)
+    failed = re.findall(r'--- FAIL: (TestGovc\w+)', out)
+    hung = re.findall(r'panic: test timed out', out)
+    summary.update({'bound': bound, 'cases': len(passed) + len(failed) + len(hung), 'distinct_nontrivial': len(passed) + len(failed) + len(hung), 'exhaustive': False, 'violating_histories': len(failed) + len(hung)})
+    if failed or hung or len(passed) < want:
+        rp = f'{V}/replays/{prop}/bounded-history-1.json'
+        os.makedirs(os.path.dirname(rp), exist_ok=True)
+        json.dump({'property': prop, 'obligation': 'bounded stand-in: fixed scenarios', 'failed': failed, 'timed_out': bool(hung), 'passed': passed,
+                   'output': '\n'.join(l for l in out.splitlines() if ' INF ' not in l)[-3000:], 'replay_cmd': f"go test -overlay <harness overlay> -vet=off -run '{run}' {pkg}"}, open(rp, 'w'), indent=1)
+        lines.append(f'VIOLATION property={prop} replay={rp}' + ('' if (failed or hung) else ' no-failing-input-found'))
+        violations.append(('scenarios', failed))
 
 summary['wall_s'] = round(time.time() - t0, 1)
 json.dump(summary, open(f'{work}/{prop}.json', 'w'), indent=1)
